@@ -829,11 +829,10 @@ impl AdjacencyMap {
             assert forall|z: int| (#[trigger] mm_see(z)) && u == v && semidegrees.will_return_none()
                 && (forall|i: int| 0 <= i < rem1.len() ==> (#[trigger] rem1[i]).0 == u && rem1[i].1 == v) implies mm_all_deg(*self, u as int) by {
                 assert(s0.len() == ks.len());
-                assert forall|a: int| self.verts().contains(a) implies #[trigger] self.indeg(a) == u as int && self.outdeg(a) == u as int by {
-                    assert(ks.to_set().contains(a as usize));
-                    let i = choose|i: int| 0 <= i < ks.len() && ks[i] == a as usize;
+                assert forall|i: int| 0 <= i < s0.len() implies (#[trigger] s0[i]).0 == u && s0[i].1 == u by {
                     if i > 0 { assert(rem1[i - 1].0 == u && rem1[i - 1].1 == v); }
                 }
+                lemma_mm_all_deg(*self, ks, s0, u);
             }
             assert(mm_see(0int));
         }
@@ -842,3 +841,22 @@ impl AdjacencyMap {
 
 /// always true: used to make a term appear in a quantifier instantiation
 spec fn mm_see<A>(a: A) -> bool { true }
+
+/// a complete semidegree listing (one item per vertex of the key listing ks) all of whose items are (c, c): every vertex has
+/// indegree c and outdegree c
+proof fn lemma_mm_all_deg(g: AdjacencyMap, ks: Seq<usize>, s: Seq<(usize, usize)>, c: usize)
+    requires
+        mm_is_key_seq(g.arcs@.dom(), ks),
+        mm_semideg_items(g, ks, s),
+        s.len() == ks.len(),
+        forall|i: int| 0 <= i < s.len() ==> (#[trigger] s[i]).0 == c && s[i].1 == c,
+    ensures
+        mm_all_deg(g, c as int),
+{
+    broadcast use lemma_map_verts_contains;
+    assert forall|a: int| g.verts().contains(a) implies #[trigger] g.indeg(a) == c as int && g.outdeg(a) == c as int by {
+        assert(ks.to_set().contains(a as usize));
+        let i = choose|i: int| 0 <= i < ks.len() && ks[i] == a as usize;
+        assert(s[i].0 == c && s[i].1 == c);
+    }
+}
